@@ -545,6 +545,10 @@ def build_conversation(rnd, nex=6, fault_p=0.45, cfg=None, chunking=None, faults
             deliver(cache_reset(cache.ver))
         elif f == "err_nodata":
             deliver(error_pdu(cache.ver, 2, q["raw"], b"no data"))
+        elif f == "err_nodata_other_ver":
+            # "No Data Available" reported in the OTHER protocol version (Error Reports are exempt from the version check): must not
+            # change what the client makes of the PDUs that follow on this connection
+            deliver(error_pdu(1 - cache.ver if cache.ver in (0, 1) else 0, 2, q["raw"], b"no data"))
         elif f == "other_version_answer":
             # the truthful answer, every PDU in the other protocol version (router keys left out for version 0)
             ov = 1 - cache.ver if cache.ver in (0, 1) else 0
